@@ -3,6 +3,7 @@ package rules
 import (
 	"fmt"
 	"go/token"
+	"go/types"
 	"sort"
 
 	"golang.org/x/tools/go/ssa"
@@ -323,6 +324,54 @@ func c08canon(c *core.Ctx, r *core.Reporter) {
 			}
 			visit(st.Val, 0)
 			r.Decide(okv, rule, fmt.Sprintf("slip.(Package).DefLambda|FuncInfo.Create store #%d", n), c.Pos(st.Pos()), fmt.Sprintf("the creator registered can be the closure that binds new calls to the lambda already registered: %v", okv))
+		}
+	}
+}
+
+// c08refresh: a call compiled before its function exists runs through a forwarding placeholder that holds the
+// creator of the function registered later (Package.Define: generics, structure functions, Go extensions).
+// When the name is registered again the placeholder must be given the new creator, or calls compiled early keep
+// running the first definition (arity, documentation and behaviour of a function that no longer exists).
+// Obligations: every function that builds a forwarding placeholder also has, for a placeholder it finds
+// already in place (a value obtained by a type test, not allocated there), a store of the creator it was
+// given into that placeholder's creator field.
+func c08refresh(c *core.Ctx, r *core.Reporter) {
+	const rule = "C08.refresh"
+	r.Rule(rule, "every function that installs a forwarding placeholder (allocates a slip.forward and stores a creator into it) also refreshes one it finds already installed: it stores the creator into the create field of a forward obtained by a type test, so a second registration of the name reaches calls compiled before the first", 1)
+	isCreate := func(a ssa.Value) (*ssa.FieldAddr, bool) {
+		fa, ok := a.(*ssa.FieldAddr)
+		if !ok || fieldName(fa) != "create" {
+			return nil, false
+		}
+		pt, ok := fa.X.Type().Underlying().(*types.Pointer)
+		if !ok || !core.IsNamed(pt.Elem(), core.SlipPath, "forward") {
+			return nil, false
+		}
+		return fa, true
+	}
+	for _, fn := range c.ModuleFuncs() {
+		installs, refreshes := false, false
+		var pos token.Pos
+		for _, b := range fn.Blocks {
+			for _, in := range b.Instrs {
+				st, ok := in.(*ssa.Store)
+				if !ok {
+					continue
+				}
+				fa, ok := isCreate(st.Addr)
+				if !ok {
+					continue
+				}
+				if _, isAlloc := fa.X.(*ssa.Alloc); isAlloc {
+					installs = true
+					pos = st.Pos()
+				} else {
+					refreshes = true
+				}
+			}
+		}
+		if installs {
+			r.Decide(refreshes, rule, core.SSAName(fn)+"|placeholder refreshed", c.Pos(pos), fmt.Sprintf("the function also stores the creator into a placeholder already in place: %v", refreshes))
 		}
 	}
 }
